@@ -77,6 +77,28 @@ add('C09', 'exploration', 'differential monitor: original bound is the reference
     'a fresh write() and read back again.', 'bit-exact equality; split() on a read-back union not part of the property',
     'DESIGN.md#C09')
 
+add('C10', 'exploration', 'offline checker over the boundary event log (run / add_samples / evaluate_likelihood / likelihood / pool.map) with a virtual clock',
+    'Every batch of every run() in generated histories (n_like_max from 0 upward, virtual-clock timeouts, n_shell, '
+    'n_eff targets, n_batch incl. 1, likelihood pools, resumes) is checked: rows == n_batch == rows the likelihood '
+    'really received == increase of n_like, one batch per step, rows in [0,1)^d, n_like == all rows ever evaluated '
+    'across resumes, no batch started over budget or after the virtual timeout, run() return value recomputed from '
+    'the stored samples.',
+    'virtual time (one unit per clock reading); success predicate skipped within 1e-6 of the n_eff target', 'DESIGN.md#C10')
+
+add('C12', 'exploration', 'snapshot/prefix monitor at every batch boundary + differential between the three ways of requesting the discard',
+    'Along histories with toggles at arbitrary boundaries, slices and resumes: explored never reverts, bound list and '
+    'geometry digests frozen after exploration, no empty shell, earlier snapshots are prefixes of later arrays, view ON '
+    '= rows after shell_end_exp, any recurring (flag, stored state) yields bit-identical statistics and posterior(); '
+    'three request paths (run(), setter, setter after resume) agree bit for bit at the same state and at the end.',
+    'bit-exact comparison; geometry digest excludes proposal caches', 'DESIGN.md#C12')
+
+add('C14', 'exploration', 'structural post-conditions on every equal-weight draw + Bernstein-bounded ensemble test of multiplicities over many draws',
+    'On weight vectors from real runs (with zero-weight rows, discarded views, mid-exploration states) every draw is '
+    'decoded into per-row multiplicities and checked (floor/floor+1, order, no repeats for boost<=1, log_l/blob '
+    'alignment, uniform normalised weights, weighted posterior untouched); summed multiplicities over 200/1500 draws '
+    'must stay within a 1e-9 Bernstein bound of D*r overall and in eight weight-quantile groups.',
+    'rows identify their source because weighted rows are distinct (C03); false-alarm <= ~2e-8 per (run, boost)', 'DESIGN.md#C14')
+
 
 def main():
     checks = []
